@@ -208,6 +208,12 @@ def run_index(seed, tier, i, tmpdir):
     return out
 
 
+def discard_result(i, reason):
+    return {"index": i, "violations": [], "counters": {"discard.run-died": 1}, "steps": 1, "family": "died:",
+            "knotted": True, "coverage": [], "unjudged": 0, "fidelity_mismatch": 0, "n_optima": 0, "truncated": 0,
+            "discards": 1, "digest": "discard:died"}
+
+
 def rebuild_run(seed, tier, i, tmpdir):
     raise RuntimeError("C02 violations carry their run")
 
